@@ -4,6 +4,7 @@ Core Lean only.
 -/
 import FhVerif.Model.StreamC34
 import FhVerif.Proofs.IntCodec
+import FhVerif.Spec.Rfc9112
 
 namespace Fh.Proofs.StreamC34
 open Fh Fh.Model Fh.Model.C34 Fh.Proofs.IntCodec
@@ -390,5 +391,162 @@ theorem readBodyChunked_fuel (m maxBody : Nat) : ∀ fuel s dst, fuel > s.length
             · simp
             · apply ih
               simp only [List.length_drop]; omega
+
+end Fh.Proofs.StreamC34
+
+/-! ### the RFC 9112 reference decoder (Spec/Rfc9112.lean) on fasthttp's encoding -/
+
+namespace Fh.Proofs.StreamC34
+open Fh Fh.Model Fh.Model.C34 Fh.Spec.Rfc Fh.Proofs.IntCodec
+
+/-- the RFC reader's digit value agrees with what writeHexInt emits -/
+theorem hexVal_lowerHexDigit : ∀ d : Fin 16, hexVal (lowerHexDigit d) = some d.val := by decide +kernel
+
+theorem lowerHexDigit_ne : ∀ d : Fin 16, lowerHexDigit d ≠ 10 ∧ lowerHexDigit d ≠ 13 := by decide +kernel
+
+/-- every byte writeHexInt emits is a hex digit for the RFC reader, and is neither CR nor LF -/
+theorem writeHex_digits (n : Nat) : ∀ c ∈ writeHexInt n, (hexVal c).isSome = true ∧ c ≠ 10 ∧ c ≠ 13 := by
+  induction n using writeHexInt.induct with
+  | case1 n h =>
+    intro c hc
+    rw [writeHexInt, dif_pos h] at hc
+    simp only [List.mem_singleton] at hc; subst hc
+    have := hexVal_lowerHexDigit ⟨n, h⟩
+    have h2 := lowerHexDigit_ne ⟨n, h⟩
+    exact ⟨by simp [this], h2.1, h2.2⟩
+  | case2 n h ih =>
+    intro c hc
+    rw [writeHexInt, dif_neg h] at hc
+    simp only [List.mem_append, List.mem_singleton] at hc
+    rcases hc with hc | hc
+    · exact ih c hc
+    · subst hc
+      have hlt : n % 16 < 16 := Nat.mod_lt _ (by decide)
+      have := hexVal_lowerHexDigit ⟨n % 16, hlt⟩
+      have h2 := lowerHexDigit_ne ⟨n % 16, hlt⟩
+      exact ⟨by simp [this], h2.1, h2.2⟩
+
+theorem writeHex_value (n : Nat) : ∀ acc, (writeHexInt n).foldl (fun a c => 16 * a + (hexVal c).getD 0) acc
+    = acc * 16 ^ (writeHexInt n).length + n := by
+  induction n using writeHexInt.induct with
+  | case1 n h =>
+    intro acc
+    rw [writeHexInt, dif_pos h]
+    have := hexVal_lowerHexDigit ⟨n, h⟩
+    simp [this]; omega
+  | case2 n h ih =>
+    intro acc
+    rw [writeHexInt, dif_neg h]
+    have hlt : n % 16 < 16 := Nat.mod_lt _ (by decide)
+    have := hexVal_lowerHexDigit ⟨n % 16, hlt⟩
+    simp only [List.foldl_append, List.foldl_cons, List.foldl_nil, ih, this, Option.getD_some,
+      List.length_append, List.length_cons, List.length_nil, Nat.pow_succ]
+    have e : acc * (16 ^ (writeHexInt (n / 16)).length * 16) = 16 * (acc * 16 ^ (writeHexInt (n / 16)).length) := by
+      rw [← Nat.mul_assoc, Nat.mul_comm]
+    rw [e]; omega
+
+theorem takeWhile_all {α} (p : α → Bool) (l r : List α) (h : ∀ x ∈ l, p x = true) :
+    (l ++ r).takeWhile p = l ++ r.takeWhile p := by
+  induction l with
+  | nil => rfl
+  | cons a t ih =>
+    have ha := h a (by simp)
+    simp [List.takeWhile, ha, ih (fun x hx => h x (by simp [hx]))]
+
+theorem dropWhile_all {α} (p : α → Bool) (l r : List α) (h : ∀ x ∈ l, p x = true) :
+    (l ++ r).dropWhile p = r.dropWhile p := by
+  induction l with
+  | nil => rfl
+  | cons a t ih =>
+    have ha := h a (by simp)
+    simp [List.dropWhile, ha, ih (fun x hx => h x (by simp [hx]))]
+
+/-- a line `l CRLF` in front of `x` is split off by the RFC reader's splitLine, provided `l` contains no LF and does
+    not end in CR -/
+theorem splitLine_crlf (l x : Bytes) (hl : ∀ c ∈ l, c ≠ 10) (hlast : l.getLast? ≠ some 13) :
+    splitLine (l ++ crlf ++ x) = some (l, x) := by
+  have hp : ∀ c ∈ l ++ [13], (c != 10) = true := by
+    intro c hc
+    simp only [List.mem_append, List.mem_singleton] at hc
+    rcases hc with hc | hc
+    · simpa using hl c hc
+    · subst hc; decide
+  have e : l ++ crlf ++ x = (l ++ [13]) ++ (10 :: x) := by simp [crlf]
+  unfold splitLine
+  rw [e, takeWhile_all _ _ _ hp, dropWhile_all _ _ _ hp]
+  simp only [List.takeWhile, List.dropWhile, bne_self_eq_false, List.append_nil]
+  simp
+
+theorem writeHex_getLast (n : Nat) : (writeHexInt n).getLast? ≠ some 13 := by
+  intro h
+  have hm : (13 : UInt8) ∈ writeHexInt n := List.mem_of_getLast? h
+  exact (writeHex_digits n 13 hm).2.2 rfl
+
+theorem parseChunkLine_write (n : Nat) : parseChunkLine (writeHexInt n) = some n := by
+  have hd := writeHex_digits n
+  have hall : ∀ c ∈ writeHexInt n, (fun c => (hexVal c).isSome) c = true := fun c hc => (hd c hc).1
+  have ht : (writeHexInt n).takeWhile (fun c => (hexVal c).isSome) = writeHexInt n := by
+    have := takeWhile_all (fun c => (hexVal c).isSome) (writeHexInt n) [] hall
+    simpa using this
+  have hdw : (writeHexInt n).dropWhile (fun c => (hexVal c).isSome) = [] := by
+    have := dropWhile_all (fun c => (hexVal c).isSome) (writeHexInt n) [] hall
+    simpa using this
+  have hne : (writeHexInt n).isEmpty = false := by
+    have := writeHex_pos n
+    cases hw : writeHexInt n <;> simp_all
+  unfold parseChunkLine
+  simp only [ht, hdw, hne, List.dropWhile_nil, List.isEmpty_nil, Bool.false_eq_true, if_false, Bool.true_or,
+    Bool.not_true, List.any_nil]
+  have := writeHex_value n 0
+  simp [this]
+
+/-- RFC 9112 reference decoder on fasthttp's chunked encoding (no trailer fields): any split decodes to the
+    concatenation, and the decoder stops exactly behind the final CRLF -/
+theorem rfc_readChunks_write (parts : List Bytes) :
+    ∀ (fuel : Nat) (rest acc : Bytes), fuel ≥ (writeBodyChunked parts).length →
+      readChunks fuel (writeBodyChunked parts ++ crlf ++ rest) acc = .ok (acc ++ parts.flatten) rest := by
+  induction parts with
+  | nil =>
+    intro fuel rest acc hf
+    have hpos := writeChunk_length_pos []
+    simp only [writeBodyChunked] at hf ⊢
+    obtain ⟨f, rfl⟩ : ∃ f, fuel = f + 1 := ⟨fuel - 1, by omega⟩
+    have hw : writeChunk [] ++ crlf ++ rest = writeHexInt 0 ++ crlf ++ (crlf ++ rest) := by
+      simp [writeChunk]
+    rw [hw, readChunks, splitLine_crlf _ _ (fun c hc => (writeHex_digits 0 c hc).2.1) (writeHex_getLast 0)]
+    simp only [parseChunkLine_write]
+    have hs : splitLine (crlf ++ rest) = some ([], rest) := by
+      have := splitLine_crlf [] rest (by simp) (by simp)
+      simpa using this
+    simp [readFields, hs]
+  | cons p ps ih =>
+    intro fuel rest acc hf
+    by_cases hp : p = []
+    · subst hp
+      simp only [writeBodyChunked, List.isEmpty_nil, if_true, List.nil_append] at hf ⊢
+      rw [ih fuel rest acc hf]; simp
+    · have hpe : p.isEmpty = false := by cases p <;> simp_all
+      have hpos : 0 < p.length := by cases p <;> simp_all
+      simp only [writeBodyChunked, hpe, Bool.false_eq_true, if_false, List.length_append] at hf ⊢
+      have hcl := writeChunk_length_pos p
+      obtain ⟨f, rfl⟩ : ∃ f, fuel = f + 1 := ⟨fuel - 1, by omega⟩
+      have hw : writeChunk p ++ writeBodyChunked ps ++ crlf ++ rest =
+          writeHexInt p.length ++ crlf ++ (p ++ (crlf ++ (writeBodyChunked ps ++ crlf ++ rest))) := by
+        simp [writeChunk, hpos, List.append_assoc]
+      rw [hw, readChunks, splitLine_crlf _ _ (fun c hc => (writeHex_digits p.length c hc).2.1) (writeHex_getLast p.length)]
+      simp only [parseChunkLine_write]
+      have h0 : p.length ≠ 0 := by omega
+      have hlen : ¬ (p ++ (crlf ++ (writeBodyChunked ps ++ crlf ++ rest))).length < p.length := by
+        simp
+      have htake : (p ++ (crlf ++ (writeBodyChunked ps ++ crlf ++ rest))).take p.length = p := List.take_left
+      have hdrop : (p ++ (crlf ++ (writeBodyChunked ps ++ crlf ++ rest))).drop p.length
+          = 13 :: 10 :: (writeBodyChunked ps ++ crlf ++ rest) := by
+        rw [List.drop_left]; simp [crlf]
+      cases hn : p.length with
+      | zero => exact absurd hn h0
+      | succ k =>
+        simp only [← hn, hlen, if_false, htake, hdrop]
+        rw [ih f rest (acc ++ p) (by omega)]
+        simp [List.append_assoc]
 
 end Fh.Proofs.StreamC34
